@@ -437,8 +437,8 @@ func (v *Vue) callFunc(ctx *VueContext, fn any, args ...any) (result any, err er
 	}
 }
 
-// integerOverflows reports whether converting the integer v to the integer type t
-// would silently wrap around.
+// integerOverflows reports whether converting the number v (an integer or a float)
+// to the integer type t would silently wrap around.
 func integerOverflows(v reflect.Value, t reflect.Type) bool {
 	zero := reflect.Zero(t)
 	switch t.Kind() {
@@ -448,6 +448,9 @@ func integerOverflows(v reflect.Value, t reflect.Type) bool {
 			return zero.OverflowInt(v.Int())
 		case reflect.Uint, reflect.Uint8, reflect.Uint16, reflect.Uint32, reflect.Uint64:
 			return v.Uint() > 1<<63-1 || zero.OverflowInt(int64(v.Uint()))
+		case reflect.Float32, reflect.Float64:
+			f := v.Float()
+			return f != f || f < -(1<<63) || f >= 1<<63 || zero.OverflowInt(int64(f))
 		}
 	case reflect.Uint, reflect.Uint8, reflect.Uint16, reflect.Uint32, reflect.Uint64:
 		switch v.Kind() {
@@ -455,6 +458,9 @@ func integerOverflows(v reflect.Value, t reflect.Type) bool {
 			return v.Int() < 0 || zero.OverflowUint(uint64(v.Int()))
 		case reflect.Uint, reflect.Uint8, reflect.Uint16, reflect.Uint32, reflect.Uint64:
 			return zero.OverflowUint(v.Uint())
+		case reflect.Float32, reflect.Float64:
+			f := v.Float()
+			return f != f || f <= -1 || f >= 1<<64 || zero.OverflowUint(uint64(f))
 		}
 	}
 	return false
